@@ -254,6 +254,13 @@ func WalkFrom(root []byte, get Getter, checkShape bool) *Walk {
 func (w *Walk) problem(f string, a ...any) { w.Problems = append(w.Problems, fmt.Sprintf(f, a...)) }
 
 func (w *Walk) walk(key []byte, path string, get Getter, shape bool, parentType byte) *Node {
+	// a store in which nodes sit under foreign keys can contain cycles: no honest path is anywhere near this long
+	if len(path) > 2000 {
+		if len(w.Problems) < 50 {
+			w.problem("the walk reached a path of %d elements below %x: the stored nodes form a cycle or an absurdly deep chain", len(path), key)
+		}
+		return nil
+	}
 	enc, ok := get(key)
 	if !ok {
 		w.Missing[string(key)] = true
